@@ -303,6 +303,11 @@ func (c *StreamConn) ArrivedAt(n int) (time.Time, bool) {
 //go:norace
 func (c *StreamConn) IsClosed() bool { return c.closed }
 
+// WasReset reports whether either direction of the connection was reset or cut by the link.
+//
+//go:norace
+func (c *StreamConn) WasReset() bool { return c.rx.rst || c.tx.rst || c.rx.cut || c.tx.cut }
+
 // VerifsimOrder gives map iterations over connections (instrumented build) a
 // fixed order.
 //
